@@ -48,10 +48,26 @@ fn sorted<T: Ord>(mut v: Vec<T>) -> Vec<T> {
     v.sort();
     v
 }
+/// The library's cells: the listed ones and every cell they reach through instances
+fn all_cells(lib: &Library) -> Result<Vec<raw::utils::Ptr<raw::Cell>>, String> {
+    let mut all: Vec<raw::utils::Ptr<raw::Cell>> = lib.cells.iter().cloned().collect();
+    let mut k = 0;
+    while k < all.len() {
+        let targets: Vec<raw::utils::Ptr<raw::Cell>> = all[k].read().map_err(|_| "lock")?.layout.as_ref().map(|l| l.insts.iter().map(|i| i.cell.clone()).collect()).unwrap_or_default();
+        for t in targets {
+            if !all.contains(&t) {
+                all.push(t);
+            }
+        }
+        k += 1;
+    }
+    Ok(all)
+}
 fn summarize_raw(lib: &Library, defs: &crate::gen::rawgen::LayerDefs) -> Result<LibSummary, String> {
     let layers = lib.layers.read().map_err(|_| "lock")?;
     let mut out = LibSummary { name: lib.name.clone(), units: format!("{:?}", lib.units), cells: BTreeMap::new() };
-    for c in lib.cells.iter() {
+    let all = all_cells(lib)?;
+    for c in all.iter() {
         let c = c.read().map_err(|_| "lock")?;
         let mut s = CellSummary::default();
         if let Some(lay) = &c.layout {
@@ -223,8 +239,9 @@ pub fn proto_of(g: &GenRaw) -> Result<proto::Library, String> {
         Shape::Path(g2) => ls.paths.push(proto::Path { net: net.into(), width: g2.width as i64, points: g2.points.iter().map(|q| proto::Point::new(q.x as i64, q.y as i64)).collect() }),
     };
     // creation order = names order
+    let all = all_cells(&g.lib)?;
     for name in &g.names {
-        let c = g.lib.cells.iter().find(|c| c.read().unwrap().name == *name).ok_or("cell")?;
+        let c = all.iter().find(|c| c.read().unwrap().name == *name).ok_or("cell")?;
         let c = c.read().unwrap();
         let mut pc = proto::Cell::default();
         pc.name = c.name.clone();
@@ -326,7 +343,8 @@ impl Prop for C14 {
         vec![GenSpec::random("raw-proto-raw", tier.pick(30_000, 400_000)), GenSpec::random("proto-raw-proto", tier.pick(30_000, 400_000))]
     }
     fn run_case(&self, cx: &mut Cx) {
-        let cfg = RawCfg::proto();
+        let mut cfg = RawCfg::proto();
+        cfg.unlisted_cells = true;
         let g = rand_raw_lib(&mut cx.rng, &cfg);
         cx.eval();
         let want = match summarize_raw(&g.lib, &g.defs) {
